@@ -294,4 +294,53 @@ try:
                 leg.violation(key, f"{tag}/{where}: visible {vis}, expected {w}; error={err!r}")
 except BaseException as e:
     leg.violation(key, f"harness error {e!r}")
+# a suspended greenlet owned by another thread is RESUMED THERE while we extract it: the interleaving "it starts running elsewhere
+# after k-1 lines of unwrap_greenlet" is forced for every k (settrace on that one function, no hook in /repo).  Whatever k: an
+# error, or exactly the frames it had while suspended - never somebody else's stack
+def resumed_elsewhere(k):
+    suspended, go, running, done = (threading.Event() for _ in range(4))
+    box = {}
+    def target(): helper()
+    def helper():
+        greenlet.getcurrent().parent.switch()
+        blocker()
+    def blocker():
+        running.set(); done.wait()
+    def thread_fn():
+        g = box["g"] = greenlet.greenlet(target)
+        g.switch(); suspended.set(); go.wait(); g.switch()
+    t = threading.Thread(target=thread_fn); t.start(); suspended.wait()
+    g = box["g"]; fired = []; count = [0]
+    def fire():
+        if not fired:
+            fired.append(True); go.set(); running.wait()
+    def local_trace(frame, event, arg):
+        if event == "line":
+            count[0] += 1
+            if count[0] == k: fire()
+        return local_trace
+    def global_trace(frame, event, arg):
+        code = frame.f_code
+        if code.co_name == "unwrap_greenlet" and code.co_filename.endswith("_glue.py"):
+            return local_trace
+        return None
+    def extracting_caller():
+        sys.settrace(global_trace)
+        try: return stackscope.extract(g)
+        finally: sys.settrace(None)
+    try:
+        st = extracting_caller()
+    finally:
+        fire(); done.set(); t.join()
+    return st, count[0] >= k
+
+
+for k in range(1, 15):
+    st, reached = resumed_elsewhere(k)
+    key = ("resumed-in-its-own-thread-after-line", k)
+    leg.case(key, reached)
+    got = [f.funcname for f in st.frames]
+    if not ((st.error is not None and got == []) or (st.error is None and got == ["target", "helper"])):
+        leg.violation(key, f"greenlet resumed by its own thread after {k - 1} lines of unwrap_greenlet: frames {got}, error {st.error!r} "
+                           "(expected an error and no frames, or exactly [target, helper])")
 leg.finish(exhaustive=True)
